@@ -10,6 +10,7 @@ mod c04;
 mod c05;
 mod c06;
 mod c11;
+mod c12;
 mod c20;
 mod gen;
 mod dicts;
@@ -38,6 +39,8 @@ fn main() {
         "c11-record" => c11::record(rest),
         "c06-run" => c06::run(rest),
         "c20-run" => c20::run(rest),
+        "c12-replay" => c12::replay(rest),
+        "c12-record" => c12::record(rest),
         other => {
             eprintln!("unknown subcommand {}", other);
             2
